@@ -19,6 +19,7 @@ type FuncSel struct {
 	Func   string   `json:"func"`
 	Posts  []string `json:"posts,omitempty"`  // regexes over clause labels; empty = every clause
 	Role   string   `json:"role,omitempty"`   // free text: why this function carries the property
+	Skip   []string `json:"skip,omitempty"`   // regexes over obligation names that this check does NOT decide (listed in evidence)
 }
 
 type PropConf struct {
@@ -256,7 +257,22 @@ func (c *checkCtx) runContracts(cov map[string]interface{}) int {
 			res = append(res, regexp.MustCompile(p))
 		}
 		kept := 0
+		var skipRe []*regexp.Regexp
+		for _, p := range sel.Skip {
+			skipRe = append(skipRe, regexp.MustCompile(p))
+		}
+		skippedNames := map[string]bool{}
 		for _, o := range rep.Obligations {
+			skip := false
+			for _, r := range skipRe {
+				if r.MatchString(o.Name) {
+					skip = true
+				}
+			}
+			if skip {
+				skippedNames[o.Name] = true
+				continue
+			}
 			if o.Kind == "post" && len(res) > 0 {
 				lbl := strings.TrimPrefix(o.Name[strings.Index(o.Name, "#")+1:], "post:")
 				ok := false
@@ -275,6 +291,9 @@ func (c *checkCtx) runContracts(cov map[string]interface{}) int {
 		fm := map[string]interface{}{"name": rep.Name, "file": rep.File, "ssa_instructions": rep.Instrs, "paths": rep.Paths, "paths_completed": rep.Completed, "obligation_instances": kept}
 		if sel.Role != "" {
 			fm["role"] = sel.Role
+		}
+		if len(skippedNames) > 0 {
+			fm["obligations_not_decided_by_this_check"] = sortedKeys(skippedNames)
 		}
 		if len(rep.Unsupported) > 0 {
 			fm["unsupported"] = rep.Unsupported
